@@ -148,7 +148,13 @@ def run_stream(ctx, observers, names=None, nvariants=1, opts=None, procs=None):
             jobs.append((k if vi == 0 else f"{k}~{vi}", s, ctx.seed, observers, opts))
     nproc = procs or min(16, os.cpu_count() or 4)
     with mp.get_context("spawn").Pool(nproc) as pl:
-        res = pl.map(_worker, jobs, chunksize=1)
+        ar = pl.map_async(_worker, jobs, chunksize=1)
+        try:
+            res = ar.get(timeout=opts.get("stream_timeout_s", 5400 if ctx.quick else 6 * 3600))
+        except mp.TimeoutError:
+            pl.terminate()
+            import common
+            raise common.InfraError("schedule stream did not finish in time (a worker hung)")
     return res
 
 
